@@ -888,6 +888,20 @@ class Engine:
     def do_return(self, m, fr):
         rc = fr.locals.get("_0")
         val = UNIT if rc is None or rc.val is None else self.force(rc)
+        if fr.note and fr.note[0] == "iterdrive":
+            # continuation of an iterator pipeline: decide (may fork => this `return` is re-executed) BEFORE mutating
+            drv = fr.note[1]
+            saved = (drv.stage, drv.phase, drv.cur, list(drv.acc), drv.it.pos, drv.it.count, drv.tick)
+            m.frames.pop()
+            try:
+                st, out = self.on_drive_return(m, drv, val)
+            except ForkRequest:
+                m.frames.append(fr)
+                drv.stage, drv.phase, drv.cur, drv.acc, drv.it.pos, drv.it.count, drv.tick = saved[0], saved[1], saved[2], saved[3], saved[4], saved[5], saved[6]
+                raise
+            if st == "done":
+                self.drive_deliver(m, drv, out)
+            return
         m.frames.pop()
         if fr.note:
             if fr.note[0] == "wrap":
